@@ -164,7 +164,26 @@ func registerVerifAPI(m *Machine) {
 		}
 		return Iface{}
 	}
-	// MkBig builds a *big.Int from bytes (convenience for models).
+	// BigFixed(x, n): the low n bytes of |x| (big endian) and whether x fits in n bytes; no forking.
+	N[P+"BigFixed"] = func(m *Machine, fr *Frame, a []Value) Value {
+		b := m.bigGet(fr, a[0])
+		n := int(m.concInt(a[1].(*Term), "BigFixed n"))
+		w := maxInt(b.width(), 8*n)
+		if w == 0 {
+			return Tuple{Slice{A: []Value{}}, TrueT}
+		}
+		t := b.ext(w)
+		out := make([]Value, n)
+		for i := 0; i < n; i++ {
+			out[i] = byteAt(t, w/8-n+i)
+		}
+		fits := TrueT
+		if w > 8*n {
+			hi := Extract(t, w-1, 8*n)
+			fits = Eq(hi, mkZero(hi.W))
+		}
+		return Tuple{Slice{A: out}, fits}
+	}
 	_ = types.Typ
 }
 
